@@ -149,6 +149,9 @@ pub struct Ctx<'a> {
     pub cfg: &'a Cfg,
     /// distinct inner-case hashes (for scenarios that evaluate many mutants per run)
     pub case_hashes: Vec<u64>,
+    /// set by the message generator when the library's own builder produced a FINGERPRINT that the
+    /// reference decoder refuses (description, bytes); consumed by the C09 scenario
+    pub builder_fp_wrong: Option<(String, Vec<u8>)>,
 }
 
 impl<'a> Ctx<'a> {
@@ -250,7 +253,7 @@ pub struct RunOut {
 
 pub fn run_one(f: ScenarioFn, cfg: &Cfg, mut ch: Choices, verbose: bool) -> RunOut {
     QUIET.with(|q| q.set(true));
-    let mut ctx = Ctx { ch: &mut ch, log: Log::new(verbose), st: Stats::default(), cfg, case_hashes: vec![] };
+    let mut ctx = Ctx { ch: &mut ch, log: Log::new(verbose), st: Stats::default(), cfg, case_hashes: vec![], builder_fp_wrong: None };
     let r = catch_unwind(AssertUnwindSafe(|| f(&mut ctx)));
     QUIET.with(|q| q.set(false));
     let mut harness_error = None;
